@@ -135,7 +135,7 @@ fn run_generic<W: World>(spec: &ShardSpec, cur: Option<&str>, trace: Option<(u64
     let alpha = alpha::by_name(&spec.alpha);
     let lim = Limits { max_states: spec.max_states, max_secs: spec.max_secs, max_viol: 12 };
     match spec.engine.as_str() {
-        "e1" => engine::run_e1::<W>(&cfg, &E1Params { n: spec.n, d: spec.d, concrete_layers: spec.concrete_layers, collect_family: false }, &*alpha, &lim, cur, trace),
+        "e1" => engine::run_e1::<W>(&cfg, &E1Params { n: spec.n, d: spec.d, concrete_layers: spec.concrete_layers, collect_family: false, from: spec.extra.get("from").and_then(|s| s.parse().ok()).unwrap_or(0) }, &*alpha, &lim, cur, trace),
         "e2" => engine::run_e2::<W>(&cfg, &E2Params { universe: spec.universe, max_depth: if spec.max_depth == 0 { usize::MAX } else { spec.max_depth } }, &*alpha, &lim, cur, trace),
         e => panic!("engine {} is not generic", e),
     }
